@@ -1,10 +1,261 @@
 package main
 
-import "fmt"
+// selftest.go — checker self-validation by mutation (DESIGN 2.7).
+//
+// A mutant is a textual replacement in one source file of the analysed tree, applied IN MEMORY through
+// the go/packages overlay (no scratch copy is needed): the subprocess loads /repo's current sources
+// with that one file replaced, runs the property's rules and prints its obligations. A breaking mutant
+// must make the named rule report something; a neutral mutant (a behaviour-preserving edit) must leave
+// the property's verdict clean. A mutant whose anchor text no longer occurs exactly once in the current
+// source is recorded as skipped. Results are evidence about the checker, never about goldmark: they
+// produce no VIOLATION line.
 
-func mutantOverlay(repo, name string) (map[string][]byte, error) {
-	return nil, fmt.Errorf("unknown mutant %q", name)
+import (
+	"bytes"
+	"encoding/json"
+	"fmt"
+	"os"
+	"os/exec"
+	"path/filepath"
+	"sort"
+	"strings"
+	"sync"
+)
+
+type Mutant struct {
+	Name    string
+	Prop    string
+	File    string // relative to the repository root
+	Old     string
+	New     string
+	Expect  string // rule-id prefix that must report (breaking mutants)
+	Neutral bool
+	Edits   []Edit // additional edits (same or other files)
 }
 
-func thoroughExtras(w *World, p *Property, rep *Report, m runMeta) {}
-func quickExtras(w *World, p *Property, rep *Report, m runMeta)    {}
+type Edit struct{ File, Old, New string }
+
+func findMutant(name string) *Mutant {
+	for i := range mutants {
+		if mutants[i].Name == name {
+			return &mutants[i]
+		}
+	}
+	return nil
+}
+
+func mutantOverlay(repo, name string) (map[string][]byte, error) {
+	m := findMutant(name)
+	if m == nil {
+		return nil, fmt.Errorf("unknown mutant %q", name)
+	}
+	ov := map[string][]byte{}
+	edits := append([]Edit{{m.File, m.Old, m.New}}, m.Edits...)
+	for _, e := range edits {
+		path := filepath.Join(repo, e.File)
+		src, ok := ov[path]
+		if !ok {
+			b, err := os.ReadFile(path)
+			if err != nil {
+				return nil, err
+			}
+			src = b
+		}
+		if n := bytes.Count(src, []byte(e.Old)); n != 1 {
+			return nil, fmt.Errorf("anchor text occurs %d times in %s (the tree has changed); mutant skipped", n, e.File)
+		}
+		ov[path] = bytes.Replace(src, []byte(e.Old), []byte(e.New), 1)
+	}
+	return ov, nil
+}
+
+func runMutant(exe, repo string, m *Mutant) SelfTestResult {
+	res := SelfTestResult{Mutant: m.Name, Kind: "breaking", Expect: m.Expect}
+	if m.Neutral {
+		res.Kind, res.Expect = "neutral", "silent"
+	}
+	cmd := exec.Command(exe, m.Prop, "--repo", repo, "--mutant", m.Name, "--json", "--no-evidence")
+	out, err := cmd.CombinedOutput()
+	if ee, ok := err.(*exec.ExitError); ok && ee.ExitCode() == 3 {
+		res.Outcome = "skipped"
+		res.Detail = firstLine(string(out))
+		return res
+	}
+	var obls []Obligation
+	found := false
+	for _, line := range strings.Split(string(out), "\n") {
+		if strings.HasPrefix(line, "OBLIGATIONS-JSON ") {
+			parts := strings.SplitN(line, " ", 3)
+			if len(parts) == 3 && json.Unmarshal([]byte(parts[2]), &obls) == nil {
+				found = true
+			}
+		}
+	}
+	if !found {
+		// the mutant does not compile / load: not a realistic mutant any more
+		res.Outcome = "skipped"
+		res.Detail = "mutated tree did not load: " + firstLine(string(out))
+		return res
+	}
+	var hits, others []string
+	for _, o := range obls {
+		if o.Status == Discharged {
+			continue
+		}
+		if !m.Neutral && strings.HasPrefix(o.Rule, m.Expect) {
+			hits = append(hits, o.Rule+" "+o.Construct)
+		} else {
+			others = append(others, o.Rule+" "+o.Construct)
+		}
+	}
+	switch {
+	case m.Neutral && len(others) == 0:
+		res.Outcome = "silent"
+	case m.Neutral:
+		res.Outcome = "alarmed"
+		res.Detail = truncate(strings.Join(others, "; "), 300)
+	case len(hits) > 0:
+		res.Outcome = "caught"
+		res.Detail = truncate(hits[0], 200)
+	case len(others) > 0:
+		res.Outcome = "caught-by-other-rule"
+		res.Detail = truncate(others[0], 200)
+	default:
+		res.Outcome = "missed"
+	}
+	return res
+}
+
+func firstLine(s string) string {
+	s = strings.TrimSpace(s)
+	if i := strings.Index(s, "\n"); i >= 0 {
+		s = s[:i]
+	}
+	return truncate(s, 200)
+}
+
+func mutantsFor(prop string) []*Mutant {
+	var out []*Mutant
+	for i := range mutants {
+		if mutants[i].Prop == prop {
+			out = append(out, &mutants[i])
+		}
+	}
+	return out
+}
+
+func runMutants(ms []*Mutant, m runMeta, rep *Report) {
+	if len(ms) == 0 {
+		return
+	}
+	exe := m.CheckerCmd
+	results := make([]SelfTestResult, len(ms))
+	sem := make(chan struct{}, 8)
+	var wg sync.WaitGroup
+	for i, mu := range ms {
+		wg.Add(1)
+		go func(i int, mu *Mutant) {
+			defer wg.Done()
+			sem <- struct{}{}
+			defer func() { <-sem }()
+			results[i] = runMutant(exe, m.Repo, mu)
+		}(i, mu)
+	}
+	wg.Wait()
+	sort.SliceStable(results, func(i, j int) bool { return results[i].Mutant < results[j].Mutant })
+	rep.SelfTest = append(rep.SelfTest, results...)
+	for _, r := range results {
+		if r.Outcome == "missed" || r.Outcome == "alarmed" {
+			rep.Note("WARNING self-validation: mutant %s %s (%s)", r.Mutant, r.Outcome, r.Detail)
+		}
+	}
+}
+
+// thoroughExtras: build-tag variants and the full mutant catalogue of the property.
+func thoroughExtras(w *World, p *Property, rep *Report, m runMeta) {
+	runVariants(p, rep, m)
+	runMutants(mutantsFor(p.ID), m, rep)
+}
+
+// quickExtras: one liveness mutant (the first breaking one of the property).
+func quickExtras(w *World, p *Property, rep *Report, m runMeta) {
+	for _, mu := range mutantsFor(p.ID) {
+		if !mu.Neutral {
+			runMutants([]*Mutant{mu}, m, rep)
+			return
+		}
+	}
+}
+
+// runVariants re-runs the property's rules on the other build configurations in subprocesses and merges
+// their non-discharged obligations (prefixed with the variant) into the report.
+func runVariants(p *Property, rep *Report, m runMeta) {
+	type variant struct{ tags, goarch string }
+	vs := []variant{{"appengine", ""}, {"", "386"}}
+	type vres struct {
+		v    variant
+		obls []Obligation
+		err  string
+	}
+	results := make([]vres, len(vs))
+	var wg sync.WaitGroup
+	for i, v := range vs {
+		wg.Add(1)
+		go func(i int, v variant) {
+			defer wg.Done()
+			args := []string{p.ID, "--repo", m.Repo, "--json", "--no-evidence", "--variant"}
+			if v.tags != "" {
+				args = append(args, "--tags", v.tags)
+			}
+			if v.goarch != "" {
+				args = append(args, "--goarch", v.goarch)
+			}
+			out, _ := exec.Command(m.CheckerCmd, args...).CombinedOutput()
+			results[i].v = v
+			ok := false
+			for _, line := range strings.Split(string(out), "\n") {
+				if strings.HasPrefix(line, "OBLIGATIONS-JSON ") {
+					parts := strings.SplitN(line, " ", 3)
+					if len(parts) == 3 && json.Unmarshal([]byte(parts[2]), &results[i].obls) == nil {
+						ok = true
+					}
+				}
+			}
+			if !ok {
+				results[i].err = firstLine(string(out))
+			}
+		}(i, v)
+	}
+	wg.Wait()
+	for _, r := range results {
+		name := "tags=" + orDefault(r.v.tags, "none") + ",GOARCH=" + orDefault(r.v.goarch, "amd64")
+		rep.Variants = append(rep.Variants, name)
+		rep.curRule = "variant"
+		if r.err != "" {
+			rep.Rules = appendRule(rep.Rules, "variant", "the property's rules are re-evaluated on the other build configurations (tags=appengine selects util_safe.go; GOARCH=386)")
+			rep.Unknown("build variant "+name, "", "could not analyse this build configuration: "+r.err)
+			continue
+		}
+		bad := 0
+		for _, o := range r.obls {
+			if o.Status != Discharged {
+				bad++
+				o.Construct = "[" + name + "] " + o.Construct
+				rep.Obls = append(rep.Obls, o)
+			}
+		}
+		rep.Rules = appendRule(rep.Rules, "variant", "the property's rules are re-evaluated on the other build configurations (tags=appengine selects util_safe.go; GOARCH=386)")
+		if bad == 0 {
+			rep.OK("build variant "+name, "", fmt.Sprintf("%d obligations, all discharged", len(r.obls)))
+		}
+	}
+}
+
+func appendRule(rs []RuleInfo, id, text string) []RuleInfo {
+	for _, r := range rs {
+		if r.ID == id {
+			return rs
+		}
+	}
+	return append(rs, RuleInfo{id, text})
+}
